@@ -653,6 +653,17 @@ def check_C19(tier):
                [(2, 8, 0, (1, 1)), (2, 9, 1, (2, 2)), (3, 11, 0, (2, 1)), (1, 3, 0, (1, 2)), (1, 5, 1, (1, 1)), (1, 4, 0, (1, 2))]
         per = 12
     batch, ok = _padd_replays(rep, rng, scen, per, combos, "c19")
+    # specification growth: a merge process killed by the system (exit code < 0) => RuntimeError, no result
+    if ok:
+        for (N, km) in ([(2, 1), (3, 2)] if quick else [(2, 1), (3, 1), (3, 2), (4, 3), (5, 4)]):
+            outs = PA.model_check(rep, N, 3, 0, None, liveness=True, outcomes=True, tag="c19mk%d%d" % (N, km), merger_dies=km)
+            for o in (outs[:2] if quick else outs[:6]):
+                # with two sketch types the k-th merger belongs to the first type merged
+                if not PA.replay_outcome(rep, N, 3, 0, None, o, rng, {"cms", "hll"}, batch, kill_merger=km):
+                    ok = False
+                    break
+            if not ok:
+                break
     if ok:
         runs = [PA.real_run(2, 5, 0, 3, rng, {"hll"})]                    # a worker calls os._exit(1) on item 3
         if not quick:
